@@ -1,1 +1,183 @@
-//! Verification doors: demux (cfg(trusttunnel_verif) only)
+//! Verification doors: SNI/ALPN demultiplexing and hot reload of the TLS host settings
+//! (cfg(trusttunnel_verif) only)
+//!
+//! * [`Demux`]: `TlsDemux::new` / `TlsDemux::select` with a plain view of `ConnectionMeta`
+//! * [`validate_hosts`]: `TlsHostsSettings::validate`
+//! * [`DemuxCore`]: a real `Core` (not listening): `reload_tls_hosts_settings`, the read side
+//!   (`select` under the read lock, as `on_new_tls_connection` does it) and the TCP accept path
+//!   (`TlsListener::listen` + `on_new_tls_connection`) on a caller-provided `TcpStream`
+//!
+//! Events (see `verif::emit`):
+//!   `ReloadBegin{cfg}` / `ReloadEnd{cfg,ok}`     around `Core::reload_tls_hosts_settings` (door)
+//!   `ReloadLocked` / `ReloadSwap{version}`        inside it, under the write lock (hooks in core.rs)
+//!   `SelStart{r,q}` `SelLocked{r}` `SelDone{r,res}` `SelEnd{r}`   read side (door; Locked/Done under the read lock)
+//!   `DemuxResult{..}`                             in `on_new_tls_connection` after a successful selection
+
+use crate::core::Core;
+use crate::net_utils::Channel;
+use crate::settings::{Settings, TlsHostsSettings};
+use crate::shutdown::Shutdown;
+use crate::tls_demultiplexer::{ConnectionMeta, TlsDemux};
+use std::io;
+use std::sync::atomic::{AtomicU64, Ordering};
+
+/// Plain view of what the demultiplexer decided
+#[derive(Debug, Clone, PartialEq, Eq)]
+pub struct MetaView {
+    pub sni: String,
+    /// "tunnel" | "ping" | "speedtest" | "reverse_proxy"
+    pub channel: &'static str,
+    /// "h1" | "h2" | "h3"
+    pub protocol: &'static str,
+    /// identity of the certificate served: the configured `cert_chain_path`
+    pub cert_id: String,
+    pub key_id: String,
+    /// DER of the first certificate of the chain that will be presented
+    pub cert_der: Vec<u8>,
+    pub sni_auth_creds: Option<String>,
+}
+
+fn channel_name(c: &Channel) -> &'static str {
+    match c {
+        Channel::Tunnel => "tunnel",
+        Channel::Ping => "ping",
+        Channel::Speedtest => "speedtest",
+        Channel::ReverseProxy => "reverse_proxy",
+    }
+}
+
+fn protocol_name(p: &crate::tls_demultiplexer::Protocol) -> &'static str {
+    use crate::tls_demultiplexer::Protocol;
+    match p {
+        Protocol::Http1 => "h1",
+        Protocol::Http2 => "h2",
+        Protocol::Http3 => "h3",
+    }
+}
+
+fn view(m: &ConnectionMeta) -> MetaView {
+    MetaView {
+        sni: m.sni.clone(),
+        channel: channel_name(&m.channel),
+        protocol: protocol_name(&m.protocol),
+        cert_id: m.cert_chain_path.clone(),
+        key_id: m.key_path.clone(),
+        cert_der: m
+            .cert_chain
+            .first()
+            .map(|c| c.0.clone())
+            .unwrap_or_default(),
+        sni_auth_creds: m.sni_auth_creds.clone(),
+    }
+}
+
+fn view_json(r: &Result<MetaView, String>) -> String {
+    match r {
+        Ok(v) => format!(
+            "{{\"kind\":\"serve\",\"channel\":\"{}\",\"proto\":\"{}\",\"cert\":\"{}\",\"creds\":\"{}\"}}",
+            v.channel,
+            v.protocol,
+            v.cert_id,
+            v.sni_auth_creds.as_deref().unwrap_or("-")
+        ),
+        Err(_) => "{\"kind\":\"refuse\",\"channel\":\"-\",\"proto\":\"-\",\"cert\":\"-\",\"creds\":\"-\"}".to_string(),
+    }
+}
+
+fn do_select(d: &TlsDemux, alpn: &[Vec<u8>], sni: &str) -> Result<MetaView, String> {
+    d.select(alpn.iter().map(Vec::as_slice), sni.to_string())
+        .map(|m| view(&m))
+}
+
+/// `TlsHostsSettings::validate`
+pub fn validate_hosts(hosts: &TlsHostsSettings) -> Result<(), String> {
+    hosts.validate().map_err(|e| format!("{:?}", e))
+}
+
+/// `TlsDemux` alone
+pub struct Demux(TlsDemux);
+
+impl Demux {
+    pub fn new(settings: &Settings, hosts: &TlsHostsSettings) -> io::Result<Self> {
+        TlsDemux::new(settings, hosts).map(Self)
+    }
+
+    pub fn select(&self, alpn: &[Vec<u8>], sni: &str) -> Result<MetaView, String> {
+        do_select(&self.0, alpn, sni)
+    }
+}
+
+static VERSION: AtomicU64 = AtomicU64::new(1);
+
+/// Number of the next installed configuration; called by the hook in
+/// `Core::reload_tls_hosts_settings` while the write lock is held
+pub fn next_version() -> u64 {
+    VERSION.fetch_add(1, Ordering::SeqCst) + 1
+}
+
+/// The configuration in force is called version 1 again
+pub fn reset_version() {
+    VERSION.store(1, Ordering::SeqCst);
+}
+
+/// Hook target in `Core::on_new_tls_connection`: the selection the connection is served with
+pub(crate) fn on_demux_result(m: &ConnectionMeta) {
+    if crate::verif::is_recording() {
+        crate::verif::emit(
+            "DemuxResult",
+            format_args!("\"res\":{}", view_json(&Ok(view(m)))),
+        );
+    }
+}
+
+/// A real `Core` that is not listening
+pub struct DemuxCore {
+    core: Core,
+}
+
+impl DemuxCore {
+    pub fn new(settings: Settings, hosts: TlsHostsSettings) -> Result<Self, String> {
+        Core::new(settings, None, hosts, Shutdown::new())
+            .map(|core| Self { core })
+            .map_err(|e| format!("{:?}", e))
+    }
+
+    /// `Core::reload_tls_hosts_settings`
+    pub fn reload(&self, cfg: u64, hosts: TlsHostsSettings) -> Result<(), String> {
+        crate::verif_emit!("ReloadBegin", "\"cfg\":{}", cfg);
+        let r = self.core.reload_tls_hosts_settings(hosts);
+        crate::verif_emit!("ReloadEnd", "\"cfg\":{},\"ok\":{}", cfg, r.is_ok());
+        r.map_err(|e| e.to_string())
+    }
+
+    /// `context.tls_demux.read().unwrap().select(..)`
+    pub fn select(&self, alpn: &[Vec<u8>], sni: &str) -> Result<MetaView, String> {
+        self.core.verif_with_tls_demux(|d| do_select(d, alpn, sni))
+    }
+
+    /// The same with events; `SelLocked` and `SelDone` are emitted while the read lock is held
+    pub fn select_logged(
+        &self,
+        reader: &str,
+        q: u64,
+        alpn: &[Vec<u8>],
+        sni: &str,
+    ) -> Result<MetaView, String> {
+        crate::verif_emit!("SelStart", "\"r\":\"{}\",\"q\":{}", reader, q);
+        let r = self.core.verif_with_tls_demux(|d| {
+            crate::verif_emit!("SelLocked", "\"r\":\"{}\"", reader);
+            let r = do_select(d, alpn, sni);
+            crate::verif_emit!("SelDone", "\"r\":\"{}\",\"res\":{}", reader, view_json(&r));
+            r
+        });
+        crate::verif_emit!("SelEnd", "\"r\":\"{}\"", reader);
+        r
+    }
+
+    /// The TCP accept path after `accept()`: ClientHello peek (`TlsListener::listen`), then
+    /// `Core::on_new_tls_connection` (rules, demultiplexing, handshake with the selected
+    /// certificate and pinned ALPN, channel handler). Returns when the handler returns.
+    pub async fn serve_tcp(&self, stream: tokio::net::TcpStream) -> Result<(), String> {
+        self.core.verif_serve_tcp(stream).await
+    }
+}
